@@ -119,30 +119,29 @@ def optNat (s : String) : Option (Option Nat) :=
 def convStr (p : Nat) : ConvResult → String
   | .ok (r, fl) => "ok " ++ reprStr r ++ " " ++ toString p ++ " " ++ flagStr fl
   | .unlimitedPrecision => "panic UnlimitedPrecision"
-  | .reprDivPanic => "panic ReprDivPrecondition"
   | .lnExp => "ok lnexp-branch-not-mirrored"
 
 def floatDispatch (W : Nat) (op : String) (args : List String) : Option String :=
   match op, args with
   | "f.parse", [b, _m, s] => do
     let b ← parseDecNat b; let s ← parseStr s
-    pure (flag (fparseRes (fromStrNative W true b s)) (fparseRes (parseFloatSpec b s)) false)
+    pure (flag (fparseRes (fromStrNative W b s)) (fparseRes (parseFloatSpec b s)) false)
   | "f.fmt", [k, p, w, fl, a] => do
     let p ← optNat p; let w ← optNat w; let a ← parseFArg a
     let f : FmtSpec := { plus := fl = "+", width := w }
     match k with
     | "disp" =>
-      let m := natBytesToStr (fmtRound true a.base a.mode f p a.repr)
+      let m := natBytesToStr (fmtRound a.base a.mode f p a.repr)
       if w.isNone then
         pure (flag ("ok " ++ m) ("ok " ++ natBytesToStr (displaySpec a.base a.mode f.plus p a.repr)) false)
       else pure ("ok " ++ m)
-    | "lexp" => pure ("ok " ++ natBytesToStr (fmtSci true a.base a.mode f p false a.repr))
-    | "uexp" => pure ("ok " ++ natBytesToStr (fmtSci true a.base a.mode f p true a.repr))
+    | "lexp" => pure ("ok " ++ natBytesToStr (fmtSci a.base a.mode f p false a.repr))
+    | "uexp" => pure ("ok " ++ natBytesToStr (fmtSci a.base a.mode f p true a.repr))
     | _ => none
   | "f.rt", [a] => do
     let a ← parseFArg a
-    let text := fmtRound true a.base a.mode {} none a.repr
-    let back := fromStrNative W true a.base text
+    let text := fmtRound a.base a.mode {} none a.repr
+    let back := fromStrNative W a.base text
     let res := match back with
       | .ok (v, n) => reprStr v ++ " " ++ toString n
       | .error e => "err " ++ e.name
@@ -153,14 +152,14 @@ def floatDispatch (W : Nat) (op : String) (args : List String) : Option String :
     pure (if same then out else out ++ " !model-spec-mismatch round-trip-differs")
   | "f.with_base", [nb, a] => do
     let nb ← parseDecNat nb; let a ← parseFArg a
-    let p := withBasePrecision W true a.base nb a.prec
-    pure (convStr p (convertBase W true a.base nb a.mode p a.repr))
+    let p := withBasePrecision W a.base nb a.prec
+    pure (convStr p (convertBase W a.base nb a.mode p a.repr))
   | "f.with_base_prec", [nb, p, a] => do
     let nb ← parseDecNat nb; let p ← parseDecNat p; let a ← parseFArg a
-    pure (convStr p (convertBase W true a.base nb a.mode p a.repr))
+    pure (convStr p (convertBase W a.base nb a.mode p a.repr))
   | "f.with_base_chk", [nb, ps, a] => do
     let nb ← parseDecNat nb; let a ← parseFArg a
-    let p ← if ps = "auto" then some (withBasePrecision W true a.base nb a.prec) else parseDecNat ps
+    let p ← if ps = "auto" then some (withBasePrecision W a.base nb a.prec) else parseDecNat ps
     if p = 0 then pure "panic UnlimitedPrecision"
     else pure ("ok d:" ++ toString p ++ " digits=true ulp=true side=true flag=true exactrep=true")
   | "f.from_f32", [bits, _m] => do
